@@ -49,6 +49,8 @@ def plan(tier, seed):
                 k = int(rng.integers(1, nd + 1))
                 ax = sorted(rng.choice(nd, size=k, replace=False).tolist())
                 axes = [int(a - nd) if rng.random() < 0.4 else int(a) for a in ax]
+                if rng.random() < 0.4:
+                    axes = [int(a) for a in rng.permutation(axes)]     # any order
             P.add("wav", name=name, shape=shape, axes=axes,
                   level=pick(rng, [None, None, 1, 2, 3]),
                   dt=pick(rng, ["complex128", "float64", "complex128", "float64", "complex64",
@@ -64,7 +66,8 @@ def plan(tier, seed):
         for k in range(3):
             kk = int(rng.integers(1, nd + 1))
             ax = sorted(rng.choice(nd, size=kk, replace=False).tolist())
-            variants.append([int(a - nd) if rng.random() < 0.4 else int(a) for a in ax])
+            variants.append([int(a) for a in rng.permutation(
+                [int(a - nd) if rng.random() < 0.4 else int(a) for a in ax])])
         order = [int(v) for v in rng.permutation(len(variants))]
         P.add("wav-history", name=pick(rng, ["haar", "db2", "db4", "sym4", "coif1"]),
               shape=shape, variants=[variants[j] for j in order],
@@ -109,8 +112,10 @@ def run_one(case):
     flen = w.dec_len
     sig = "|".join(map(str, [fam, "L%d" % min(flen // 8, 4), nd,
                              "".join("1" if s == 1 else "o" if s % 2 else "e" for s in shape),
-                             "none" if axes is None else "neg" if any(a < 0 for a in axes)
-                             else "pos", level, dt.name, case["via"],
+                             "none" if axes is None else ("neg" if any(a < 0 for a in axes)
+                                                          else "pos") + (
+                                 "u" if [a % nd for a in axes] != sorted(a % nd for a in axes)
+                                 else ""), level, dt.name, case["via"],
                              "short" if any(shape[a] < flen for a in tr) else "long"]))
     wit = dict(case)
     tol = 1e-9 if dt in (np.float64, np.complex128) else 2e-4
